@@ -19,6 +19,24 @@ cancel while a child's result is in flight, stop between a task completion and i
                   exactly once; no task or sub-workflow execution is created in a stopped workflow (after a cancel: anywhere
                   below it) afterwards.  C10 - after an acknowledged pause the workflow and every sub-workflow below it that
                   was not finished is PAUSED.
+
+corpus/stoptree/*.json: minimal histories of the findings of this part (A open; B, C fixed by repo commit 85c5b051, must
+replay clean); they run first in every check.
+
+SELFTEST (scratch worktree = /repo HEAD 85c5b051 + the change; `VERIF_REPO=<wt> ./check C11` resp.
+`PYTHONPATH=<wt>:/verif python -m harness.engine_stoptree 260 0`):
+  S   seeded: workflow_handler.stop_workflow cascades only through RUNNING task executions          VIOLATION (exit 1)
+      cancel:descendant-not-CANCELLED:was-PAUSED / :was-RUNNING, cancel:descendant-not-CANCELLED-at-the-end,
+      cancel:parent-task-not-CANCELLED:plain / :with-items, task-created-after-cancelled; 43 model disagreements (stop_at)
+  M1  workflows._cancel_workflow does not report to the parent (the parent-task cancel is dropped)  CAUGHT
+      child-reported-never (361x), cancel:parent-task-not-CANCELLED:plain / :with-items; 161 model disagreements (sent, deliver_at)
+  M2  workflows._cancel_workflow without its `completed -> return` guard (a child reports twice)   CAUGHT
+      child-reported-twice, stopped-workflow-changed:CANCELLED, stop-changed-finished-workflow; 22 model disagreements
+  M3  workflow_handler._pause_subworkflows skips finished sub-workflows again                      CAUGHT
+      pause:sub-workflow-not-PAUSED (corpus C deviates from its expectation); 2 model disagreements (pause_at)
+Observation (not flagged, kept by 85c5b051): when a RUNNING sub-workflow below a FINISHED workflow is paused, its Plain
+parent task is first updated to PAUSED, then pause_workflow of the finished workflow raises inside _on_action_update, which
+catches it and force-fails that parent task (ERROR, whatever its state was); the model mirrors this (pause_down).
 """
 import collections
 import copy
@@ -673,6 +691,10 @@ def run(ctx, n_cases, suite='engine_stoptree', props=('C11', 'C10')):
     st['input_distribution'] = dict(dist)
     st['observed'] = dict(stats)
     st['model_events_compared'] = n_model
+    if hasattr(ctx, 'notes'):
+        ctx.notes.append('observation (not flagged): pausing a RUNNING sub-workflow that lies below a FINISHED workflow (forced stop) makes '
+                         '_on_action_update call pause_workflow on the finished workflow, which raises; the handler force-fails the Plain parent '
+                         'task (ERROR). The tree model mirrors it; the property texts do not speak about that task.')
     if results:
         ctx.sample({'suite': suite, 'case': results[-1]['case'], 'final': results[-1].get('final')})
     return results
